@@ -46,9 +46,23 @@ class MetricFFParser:
         :param planner_output: the file content with the possible action sequence.
         :return: the action sequence.
         """
-        matches = re.finditer(PLAN_COMPONENT_REGEX, planner_output, re.MULTILINE)
+        # the steps are the lines that follow the planner's announcement of the plan, up to the first line that is not
+        # a step - lines of the surrounding log may look like steps ("attempt 1: running the planner").
+        plan_announcement = planner_output.find(VALID_PLAN_FOUND_PATTERN)
+        if plan_announcement >= 0:
+            planner_output = planner_output[
+                plan_announcement + len(VALID_PLAN_FOUND_PATTERN) :
+            ]
+
         plan_seq = []
-        for match in matches:
+        for line in planner_output.splitlines():
+            match = re.search(PLAN_COMPONENT_REGEX, line)
+            if match is None:
+                if plan_announcement >= 0 and line.strip() != "":
+                    break
+
+                continue
+
             action_sequence = match.group(1)
             self.logger.debug(f"action sequence - {action_sequence}")
             plan_seq.append(f"({action_sequence.lower().strip()})\n")
